@@ -69,9 +69,19 @@ def main(tier, replay):
         c.finish('n/a')
     mod = make_scratch_module(c)
     infos = {}
+    c05_shapes = {}
+    for k in load_known():
+        if k.get('property') == 'C05' and k.get('kind') == 'finding':
+            for shp in k.get('shapes', []):
+                c05_shapes[shp] = k
     for n, p in P.items():
         infos[n] = gen_program(c, mod, p, BASE_TEMPLATES, pgen)
         if not infos[n]['ok']:
+            if SHAPE_CANON.get(n) in c05_shapes:
+                # the generator already fails on the ORIGINAL struct of this shape: the C05 finding, not a C15 verdict
+                k = c05_shapes[SHAPE_CANON[n]]
+                c.known_hits['C05:' + k['group']] = 'parquetgen generator defect listed under C05 (%s): no writer can be generated for shapes such as %s' % (k['group'], SHAPE_CANON[n])
+                continue
             c.inconclusive.append('program %s %s: %s' % (n, p.canon(), infos[n]['msg']))
     ok_names = [n for n in P if infos[n]['ok']]
     # ---- native orchestration (decides nothing): write a zero-row and a one-row file with every generated writer
